@@ -108,10 +108,17 @@ func NewPMT(pmtBytes []byte) (PMT, error) {
 }
 
 func (p *pmt) parseTables(pmtBytes []byte) error {
-	sectionBytes := pmtBytes[1+PointerField(pmtBytes):]
+	if len(pmtBytes) < 1+int(PointerField(pmtBytes)) {
+		return gots.ErrShortPayload
+	}
+	sectionBytes := pmtBytes[1+int(PointerField(pmtBytes)):]
 
 	for len(sectionBytes) > 2 && sectionBytes[0] != 0xFF {
 		tableLength := sectionLength(sectionBytes)
+		if len(sectionBytes) < 3+int(tableLength) {
+			// the section announces more bytes than the payload holds
+			return gots.ErrShortPayload
+		}
 
 		if tableID(sectionBytes) == 0x2 {
 			err := p.parsePMTSection(sectionBytes[0 : 3+tableLength])
@@ -144,7 +151,10 @@ func (p *pmt) parsePMTSection(pmtBytes []byte) error {
 		uint16(pmtBytes[programInfoLengthOffset+1])
 
 	// start at the stream descriptors, parse until the CRC
-	for offset := programInfoLengthOffset + 2 + programInfoLength; offset < PSIHeaderLen+sectionLength-pmtEsDescriptorStaticLen-CrcLen; {
+	// the stream loop ends where the CRC begins; computed as int so that a
+	// section_length too small for a PMT cannot wrap around
+	crcStart := int(PSIHeaderLen) + int(sectionLength) - 1 - int(CrcLen)
+	for offset := programInfoLengthOffset + 2 + programInfoLength; int(offset)+int(pmtEsDescriptorStaticLen) <= crcStart; {
 		elementaryStreamType := uint8(pmtBytes[offset])
 		elementaryPid := int(pmtBytes[offset+1]&0x1f)<<8 | int(pmtBytes[offset+2])
 		pids = append(pids, elementaryPid)
